@@ -15,16 +15,21 @@
 (* encoding/json's own limit of 10000) the call must return, with an error or not.             *)
 (***************************************************************************)
 EXTENDS Integers, Sequences, FiniteSets, TLC, Json
-CONSTANTS ObsFile
+CONSTANTS ObsFile, Devs
 VARIABLES l, tally
 vars == <<l, tally>>
 Obs == ndJsonDeserialize(ObsFile)
 
+\* deviation "RecursiveAllOfUnsupported": a graph with an allOf-wrapped reference on a cycle is not generated
+KnownGenFailure(e) == "RecursiveAllOfUnsupported" \in Devs /\ "allofcycle" \in DOMAIN e.unit /\ e.unit.allofcycle
 IsDupOf(name, d) == Len(name) > Len(d) + 1 /\ SubSeq(name, 1, Len(d) + 1) = d \o "_"
 Problems(e) ==
   (IF e.gen = "dead" THEN {"generation crashed or did not terminate"} ELSE {})
-  \cup (IF e.gen = "err" THEN {"generation failed"} ELSE {})
-  \cup (IF e.gen = "ok" /\ ~e.built THEN {"emitted package does not compile"} ELSE {})
+  \cup (IF e.gen = "err" /\ ~KnownGenFailure(e) THEN {"generation failed"} ELSE {})
+  \* (under that deviation the generator either gives up or -- when the wrapped reference is reached while its target
+  \* is still being generated -- emits a package that refers to types it never declares: both are the recorded finding;
+  \* a crash, a hang, or a package that compiles but decodes wrongly are not)
+  \cup (IF e.gen = "ok" /\ ~e.built /\ ~KnownGenFailure(e) THEN {"emitted package does not compile"} ELSE {})
   \cup (IF e.gen = "ok" /\ e.built
         THEN {"definition " \o e.unit.gonames[i].k \o " is not declared exactly once" : i \in
                 {i \in DOMAIN e.unit.gonames :
@@ -47,7 +52,7 @@ Report(n, e, ps) ==
 Step(n, e, t) ==
   LET ps == Problems(e) IN
   IF ps = {} \/ Report(n, e, ps)
-  THEN [ok |-> t.ok + (IF ps = {} THEN 1 ELSE 0), un |-> 0, known |-> 0, viol |-> t.viol + (IF ps = {} THEN 0 ELSE 1), drift |-> 0,
+  THEN [ok |-> t.ok + (IF ps = {} /\ e.gen = "ok" /\ e.built THEN 1 ELSE 0), un |-> 0, known |-> t.known + (IF ps = {} /\ (e.gen = "err" \/ (e.gen = "ok" /\ ~e.built)) THEN 1 ELSE 0), viol |-> t.viol + (IF ps = {} THEN 0 ELSE 1), drift |-> 0,
         acc |-> t.acc + Len(e.deep), rej |-> t.rej + (IF e.unit.cyclic THEN 1 ELSE 0)]
   ELSE t
 Init == l = 0 /\ tally = [ok |-> 0, un |-> 0, known |-> 0, viol |-> 0, drift |-> 0, acc |-> 0, rej |-> 0]
